@@ -464,6 +464,17 @@ def gen_plan(rng, small=False):
                 a = rng.choice(an) ^ (rng.getrandbits(b) if rng.random() < 0.3 else 0)
                 net = mask(fam, a, o["width"])
                 e = dict(o, net=net, txt=addr_txt(fam, net))
+            elif es and r < 0.42:                    # neighbouring key: width +-1 (or port range +-1), opposite kind, same prefix
+                o = rng.choice(es)
+                e = dict(o)
+                if o["fport"] and rng.random() < 0.3:
+                    e["lport"] = min(65535, o["lport"] + 1) if rng.random() < 0.5 or o["lport"] == o["fport"] else o["lport"] - 1
+                else:
+                    w2 = o["width"] + rng.choice([-1, 1])
+                    w2 = min(b, max(0, w2))
+                    net = mask(fam, o["net"], w2)
+                    e.update(width=w2, net=net, txt=addr_txt(fam, net))
+                e["excl"] = (not o["excl"]) if rng.random() < 0.8 else o["excl"]
             else:
                 w = rng.choice(W[fam]) if rng.random() < 0.7 else rng.randint(0, b)
                 a = rng.choice(an) if rng.random() < 0.8 else rng.getrandbits(b)
